@@ -120,9 +120,34 @@ Fixpoint check_hist (c : config) (universe users : list N) (s : state) (prev : o
 
 Definition bal_of (l : list (N * Z)) : N -> Z := fun a => lookup_bal l a.
 
+(** ** Route matrix.  One account (id 0) whose sanction status was brought about through the
+    real modules in some way ([how]: not at all / permanently / temporarily by a live proposal /
+    permanently but temporarily unsanctioned ...) attempts to move [amt] out of its balance
+    [before] by the named route (bank send, multi-send, delegation, gov deposit, fee transfer,
+    marker transfer by the holder, forced marker transfer by an administrator on its behalf ...).
+    [sanctioned] is the implementation's IsSanctioned answer before the attempt. *)
+Definition model_route (sanctioned : bool) (before amt : Z) : bool * Z :=
+  let c := {| c_unsanct := []; c_gov_min := 1 |} in
+  let s0 := init 0 0 1%N 0 (fun _ => before) in
+  let s1 := if sanctioned then set_perm s0 [0%N] else s0 in
+  let '(s2, ok) := step c s1 (OPayFee 0%N amt) in
+  (ok, bal s2 0%N).
+
+Definition check_route (name how : string) (sanctioned : bool) (before amt : Z) (ok : bool) (after : Z)
+  : list string :=
+  let w := (name ++ " (" ++ how ++ ")")%string in
+  let '(mok, mafter) := model_route sanctioned before amt in
+  tag (Bool.eqb mok ok) ("corr:route accepted/rejected: " ++ w)%string ++
+  tag (Z.eqb mafter after) ("corr:route balance: " ++ w)%string ++
+  tag (negb sanctioned || (before <=? after)) ("prop:balance of a sanctioned account decreased via " ++ w)%string ++
+  tag (negb sanctioned || negb ok) ("prop:sanctioned account moved funds via " ++ w)%string ++
+  tag (sanctioned || negb ((0 <? amt) && (amt <=? before)) || (ok && Z.eqb after (before - amt)))
+      ("prop:unsanctioned account could not move its funds via " ++ w)%string.
+
 Inductive case :=
 | CHist (unsanctionable : list N) (gov_min : Z) (universe users : list N)
-        (first_id : N) (t0 : Z) (ob0 : obs) (steps : list (op * obs)).
+        (first_id : N) (t0 : Z) (ob0 : obs) (steps : list (op * obs))
+| CRoute (name how : string) (sanctioned : bool) (before amt : Z) (ok : bool) (after : Z).
 
 Definition check (k : case) : list string :=
   match k with
@@ -134,6 +159,7 @@ Definition check (k : case) : list string :=
       | [] => check_hist c universe users s0 ob0 [] 1%N [] steps
       | e => map (at_step 0%N) e
       end
+  | CRoute name how sanctioned before amt ok after => check_route name how sanctioned before amt ok after
   end.
 
 Definition check_all := check_list check.
